@@ -114,6 +114,19 @@ class Material:
                                         content if i % 2 == 0 else None, "tree", content))
         self.dump = scratch.serialize_public()       # a genuine public serialisation (parents first)
         self._extras: dict = {}
+        self._views: dict = {"pub": self.pub, "secret": self.sk}
+
+    def view_key(self, view: str):  # noqa: ANN201
+        """
+        The key object handed to ``TokenTree(public_key=...)``.  Every private key object is-a PublicKey in ipv8, so
+        a caller may legitimately pass one that still carries its secret part (``my_peer.key``, or a key loaded with
+        ``key_from_private_bin``); the tree must behave as the same owner's view either way.
+        """
+        if view not in self._views:
+            assert view == "secret-reloaded", view
+            from ipv8.keyvault.crypto import default_eccrypto
+            self._views[view] = default_eccrypto.key_from_private_bin(self.sk.key_to_bin())
+        return self._views[view]
 
     def _own(self, prev: bytes, content: bytes) -> Token:
         return Token(prev, content=content, private_key=self.sk)
@@ -173,6 +186,19 @@ class Material:
                 c = self._own(ref.token_hash(*forged.triple), b"c16 child of forged")
                 return [forged, Item(tag + "#child", c.previous_token_hash, c.content_hash, c.signature, None,
                                      "dangling")]
+        if kind == "twin":
+            # the owner signs the same double pointer (same parent, same content) a second time: with randomised
+            # signatures (the ECDSA curves) that is a second, distinct, equally valid token with its own identity
+            assert base is not None
+            tw = self._own(base.prev, base.right_content)
+            twin = Item(tag if var != "child" else tag + "#twin", tw.previous_token_hash, tw.content_hash,
+                        tw.signature, None if base.content is not None else base.right_content, "twin",
+                        base.right_content)
+            if var != "child":
+                return [twin]
+            c = self._own(ref.token_hash(*twin.triple), b"c16 child of twin of T%d" % t)
+            return [twin, Item(tag + "#child", c.previous_token_hash, c.content_hash, c.signature, None, "twin-child",
+                               b"c16 child of twin of T%d" % t)]
         if kind == "dup":
             assert base is not None
             return [Item(tag, base.prev, base.chash, base.sig, base.right_content if var == "content" else None,
@@ -209,6 +235,13 @@ def primed_foreign_for(parents: tuple) -> list[tuple]:
         out += [("foreign-primed", 0, f"on-genesis:{mode}"), ("foreign-primed", 0, f"own-genesis:{mode}")]
     return out
 
+
+def twins_for(parents: tuple) -> list[tuple]:
+    """A separately signed twin of every token, alone and with a child of its own (the original keeps its children)."""
+    return [("twin", t, var) for t in range(len(parents)) for var in ("", "child")]
+
+
+ECDSA_CURVES = ["very-low", "low", "medium", "high"]     # randomised signatures; curve25519 twins are plain duplicates
 
 TWO_ITEM = {("dangling", "chain"), ("dangling", "child-of-forged")}
 
@@ -301,6 +334,13 @@ def _extras_tag(scn: dict) -> str:
     return "+".join(kinds) if kinds else "plain"
 
 
+def _order_key(scn: dict) -> str:
+    tag = _extras_tag(scn)
+    if "twin" in tag:
+        return f"order-dependent-result:{tag}"
+    return "order-dependent-result:" + ("fork" if has_fork(tuple(scn["parents"])) else f"chain:{tag}")
+
+
 def evaluate(scn: dict, order: list, memo: dict | None = None) -> dict:
     """
     One execution on the real tree.  Returns {"viol": [(key, what, order_prefix)], "outcome", "trace",
@@ -317,13 +357,15 @@ def evaluate(scn: dict, order: list, memo: dict | None = None) -> dict:
         name_of.setdefault(h, it.label)
         cls_of.setdefault(h, it.cls)
     pre = Prefixes(mat, offered)
-    tree = TokenTree(public_key=mat.pub)
+    view = scn.get("view", "pub")
+    tree = TokenTree(public_key=mat.view_key(view))
     tree.unchained_max_size = cap
     viol: list = []
     trace: list = []
     stats = {"waited": 0}
     labels = [o.label for o in offered]
-    head = f"tree {shape_str(scn['parents'])}, waiting area {cap}, via {via}: "
+    head = (f"tree {shape_str(scn['parents'])}, waiting area {cap}, via {via}"
+            + ("" if view == "pub" else f", TokenTree(public_key=<{view} key object>)") + ": ")
     step_failed = False
 
     def compare(k: int, exp: ref.Expect) -> None:
@@ -349,7 +391,9 @@ def evaluate(scn: dict, order: list, memo: dict | None = None) -> dict:
                 step_failed = True
                 cause = _cause_of_missing(offered[:k + 1], exp, have, missing)
                 key = f"missing-connected-token:{cause}"
-                if cause == "other":
+                if cause == "other" and view != "pub":
+                    key += ":view-with-secret-part"
+                elif cause == "other" or "twin" in _extras_tag(scn):
                     key += f":{_extras_tag(scn)}"
                 waiting = {_th(t) for t in tree.unchained}
                 viol.append((key, head + f"after offering {hist} elements are {_names(have, name_of)} and lack "
@@ -494,7 +538,7 @@ def evaluate(scn: dict, order: list, memo: dict | None = None) -> dict:
             viol.append(("dump-content-wrong", head + f"after {labels}, serialize_public() is {len(dump)} bytes and "
                          "does not consist of exactly the contained tokens", full))
         else:
-            fresh = TokenTree(public_key=mat.pub)
+            fresh = TokenTree(public_key=mat.view_key(view))
             try:
                 ok = fresh.unserialize_public(dump)
             except Exception as e:  # noqa: BLE001
@@ -523,7 +567,7 @@ def evaluate(scn: dict, order: list, memo: dict | None = None) -> dict:
                              f"{name_of.get(h)}) holds {[name_of.get(g) for g in got]}, the root path is "
                              f"{[name_of.get(a) for a in want]}", full))
                 continue
-            fresh2 = TokenTree(public_key=mat.pub)
+            fresh2 = TokenTree(public_key=mat.view_key(view))
             try:
                 fresh2.unserialize_public(part)
             except Exception:  # noqa: BLE001, S110
@@ -774,18 +818,50 @@ def build_scenarios(ctx: core.Ctx) -> tuple[list[dict], dict]:
         for p in unlabelled_shapes(n):
             for e in primed_foreign_for(p):
                 scns.append(scenario("foreign-primed", cv, owner, foreign, p, [e]))
-    # G: other curves (other signature and chunk lengths)
-    b["other_curves"] = {"curves": ["very-low", "medium"] if T else ["very-low"], "labelled_n_max": 4 if T else 3,
-                         "intruder_n_max": 2}
+    # G: owner keys of every other curve family (other signature / chunk lengths, randomised ECDSA signatures)
+    b["other_curves"] = {"curves": ECDSA_CURVES, "labelled_n_max": 4 if T else 3,
+                         "intruder_curves": ["very-low", "medium"] if T else ["very-low"], "intruder_n_max": 2}
     for curve in b["other_curves"]["curves"]:
         o2, f2 = fixtures.rotate(ctx.seed, 2, curve)
         for p in shapes(b["other_curves"]["labelled_n_max"], 0):
             scns.append(scenario("curve", curve, o2, f2, p))
             scns.append(scenario("curve-wire", curve, o2, f2, p, via="wire"))
+        if curve not in b["other_curves"]["intruder_curves"]:
+            continue
         for n in range(1, b["other_curves"]["intruder_n_max"] + 1):
             for p in unlabelled_shapes(n):
                 for e in extras_for(p):
                     scns.append(scenario("curve-intruder", curve, o2, f2, p, [e]))
+    # G'': the key handed to TokenTree(public_key=...) still carries its secret part (legal: a private key object
+    # is-a PublicKey); same owner, so the same closure is expected
+    b["view_with_secret_part"] = {"views": ["secret", "secret-reloaded"], "curves": [cv, "very-low"],
+                                  "labelled_n_max": 4 if T else 3, "intruder_n_max": 3 if T else 2}
+    for curve in b["view_with_secret_part"]["curves"]:
+        o2, f2 = fixtures.rotate(ctx.seed, 2, curve)
+        for view in b["view_with_secret_part"]["views"]:
+            for p in shapes(b["view_with_secret_part"]["labelled_n_max"], 0):
+                for via in ("gather", "wire"):
+                    sc = scenario("view-secret", curve, o2, f2, p, via=via)
+                    sc["view"] = view
+                    scns.append(sc)
+            for n in range(1, b["view_with_secret_part"]["intruder_n_max"] + 1):
+                for p in unlabelled_shapes(n):
+                    for e in extras_for(p):
+                        sc = scenario("view-secret-intruder", curve, o2, f2, p, [e])
+                        sc["view"] = view
+                        scns.append(sc)
+    # G': twins - the same (parent, content) signed twice by the owner under a randomised-signature key gives two
+    # distinct valid tokens; either may have children; all orders, both entry points
+    b["twins"] = {"n_max_per_curve": ({"very-low": 4, "low": 4, "medium": 3, "high": 3} if T else
+                                      {"very-low": 3, "low": 2, "medium": 2, "high": 2})}
+    for curve, nmax in b["twins"]["n_max_per_curve"].items():
+        o2, f2 = fixtures.rotate(ctx.seed, 2, curve)
+        for n in range(1, nmax + 1):
+            for p in unlabelled_shapes(n):
+                for e in twins_for(p):
+                    scns.append(scenario("twin", curve, o2, f2, p, [e]))
+                    if e[2] == "":
+                        scns.append(scenario("twin-wire", curve, o2, f2, p, [e], via="wire"))
     # H: bytes
     b["bytes"] = {"labelled_n_max": 3, "substituted_values_per_byte": 255 if T else 9,
                   "other_curve_n_max": 2 if T else 1}
@@ -860,8 +936,7 @@ def run(ctx: core.Ctx) -> core.Report:
             multi += 1
             scn = scns[sid]
             (o1, (p1, ord1)), (o2, (p2, ord2)) = sorted(oc.items(), key=lambda kv: kv[1][0])[:2]
-            key = "order-dependent-result:" + ("fork" if has_fork(tuple(scn["parents"])) else
-                                               f"chain:{_extras_tag(scn)}")
+            key = _order_key(scn)
             _, items = scenario_items(scn)
             what = (f"tree {shape_str(scn['parents'])}, waiting area {scn['cap']}, via {scn['via']}: offering "
                     f"{[items[i].label for i in ord1]} ends with (elements, waiting) = {_lab(o1, items)} but offering "
@@ -941,8 +1016,7 @@ def replay(ctx: core.Ctx, data: dict) -> list:
     out = []
     if r1["outcome"] is not None and r2["outcome"] is not None and r1["outcome"] != r2["outcome"]:
         _, items = scenario_items(scn)
-        key = "order-dependent-result:" + ("fork" if has_fork(tuple(scn["parents"])) else
-                                           f"chain:{_extras_tag(scn)}")
+        key = _order_key(scn)
         out.append(core.Violation(key, f"{[items[i].label for i in data['orders'][0]]} -> {_lab(r1['outcome'], items)}"
                                        f" but {[items[i].label for i in data['orders'][1]]} -> "
                                        f"{_lab(r2['outcome'], items)}"))
